@@ -270,13 +270,13 @@ class Ref:
     """Expected observations, by pre-order index.  Absent index: undefined by the statement (a formatting key of
     the element's own prefix cannot be resolved)."""
 
-    def __init__(self, tree):
+    def __init__(self, tree, start=None):
         self.exp = {}
         self.dict_rendered = False
         self.counter = 0
         self.top = None
         try:
-            self.top = ("ok", self.fold(tree, {}))
+            self.top = ("ok", self.fold(tree, copy.deepcopy(start) if start else {}))
         except RefKeyError as e:
             self.top = ("err", e.comp)
 
@@ -321,9 +321,14 @@ class Ref:
                     rec["name"] = node["fmt"]
             self.exp[idx] = rec
             return ctx
-        if k in ("data", "src", "mut", "fc", "fr"):
+        if k in ("data", "src", "mut", "fc", "fr", "hrun"):
             self.exp[idx] = {"k": "data" if k in ("fc", "fr") else k}
             return ctx
+        if k == "hset":
+            # a hostile element that updates the dictionary it is given in place: what follows it sees the update
+            # (a sequence never hands an empty context to an element)
+            self.exp[idx] = {"k": k}
+            return dict(ctx, **{"hz%d" % idx: 1}) if ctx else ctx
         if k == "seq":
             children = node["c"]
             for i, c in enumerate(children):
@@ -332,12 +337,12 @@ class Ref:
                 except RefKeyError as e:
                     for rest in children[i + 1:]:
                         self.skip(rest)
-                    self.exp[idx] = {"k": "seq", "get": {"e": e.comp}}
+                    self.exp[idx] = {"k": "seq", "get": {"e": e.comp}, "alts": getattr(e, "alts", None) or [e.comp]}
                     raise
             self.exp[idx] = {"k": "seq", "get": copy.deepcopy(ctx)}
             return ctx
         if k == "split":
-            outs, err = [], None
+            outs, err, alts = [], None, []
             for b in node["c"]:
                 if b["k"] in ("fc", "fr"):
                     # a branch that is a bare element has no static context at all: it is transparent
@@ -349,8 +354,11 @@ class Ref:
                 except RefKeyError as e:
                     # the other branches have their own, resolvable, prefix
                     err = err or e
+                    alts.append(e.comp)
             if err is not None:
-                self.exp[idx] = {"k": "split", "get": {"e": err.comp}}
+                # the statement does not say which of several unresolved keys is named: any of them ("alts")
+                self.exp[idx] = {"k": "split", "get": {"e": err.comp}, "alts": alts}
+                err.alts = getattr(err, "alts", None) or alts
                 raise err
             res = ref_intersection(outs)
             self.exp[idx] = {"k": "split", "get": res}
@@ -411,18 +419,24 @@ SRC_FLOW = [{"r": 0}, {"r": 1, "a": "src"}]
 
 
 def ref_run(node, exp, idx, flow):
-    """Run-time reference: what comes out for the flow `flow` (list of (data, ctx)); static context enters only
-    through UpdateContextFromStatic (recursive update with what it saw) and through the name MakeFilename derived.
-    Returns (flow_out, next_idx).  exp: Ref.exp (all indices must be defined)."""
+    """Run-time reference: what comes out for the flow `flow` (list of (data, ctx), ctx None for bare data); static
+    context enters only through UpdateContextFromStatic (recursive update with what it saw) and through the names
+    MakeFilename derives.  Returns (flow_out, next_idx).  exp: Ref.exp (defined for every consumer)."""
     k = node["k"]
     if k == "ucfs":
+        if any(c is None for _, c in flow):
+            raise Unmodelled()          # `data, context = val` raises for bare data
         return [(d, ref_update(c, exp[idx]["seen"])) for d, c in flow], idx + 1
     if k == "mkf":
-        return [(d, ref_mkf_call(node, exp[idx]["seen"], c)) for d, c in flow], idx + 1
-    if k in ("set", "store", "write", "cache", "data", "fc", "fr"):
+        out = []
+        for d, c in flow:
+            r = ref_mkf_call(node, exp[idx]["seen"], c if c is not None else {})
+            out.append((d, r if (c is not None or r) else None))
+        return out, idx + 1
+    if k in ("set", "store", "write", "cache", "data", "fc", "fr", "hset", "hrun"):
         return flow, idx + 1
     if k == "mut":
-        return [(d, ref_update(c, ref_path_dict(node["key"], node["val"]))) for d, c in flow], idx + 1
+        return [(d, c if c is None else ref_update(c, ref_path_dict(node["key"], node["val"]))) for d, c in flow], idx + 1
     if k == "src":
         return [(i, copy.deepcopy(c)) for i, c in enumerate(SRC_FLOW)], idx + 1
     if k == "seq":
@@ -440,6 +454,38 @@ def ref_run(node, exp, idx, flow):
             out.extend(o)
         return out, idx
     raise ValueError(k)
+
+
+def consumers_defined(tree, exp):
+    """every element through which static context can reach the flow has a defined prefix fold"""
+    return all(i in exp for i, nd in enumerate(preorder(tree)) if nd["k"] in ("ucfs", "mkf"))
+
+
+# tokens: which elements are handed the same dictionary object (the Python twin of `tokAt`, Model/C13.lean)
+
+def _has_get(node):
+    return node["k"] in ("set", "seq", "split")
+
+
+def tokens(tree):
+    """{path: token} of the dictionary object handed to every node: LenaSequence._set_context passes one object to
+    consecutive elements and rebinds it to the copy returned by an element's _get_context(); a Split copies per
+    branch"""
+    out = {}
+
+    def walk(node, abs_, inc):
+        out[abs_] = inc
+        if node["k"] == "seq":
+            running = inc
+            for i, c in enumerate(node["c"]):
+                walk(c, abs_ + (i,), running)
+                if _has_get(c):
+                    running = (abs_ + (i,), 0)
+        elif node["k"] == "split":
+            for i, b in enumerate(node["c"]):
+                walk(b, abs_ + (i,), (abs_ + (i,), 1))
+    walk(tree, (), ((), 2))
+    return out
 
 
 # ------------------------------------------------------------------------------------------------
@@ -509,9 +555,42 @@ class _Mutator(object):
 
     def __call__(self, value):
         import lena.context
+        if not (isinstance(value, tuple) and len(value) == 2 and isinstance(value[1], dict)):
+            return value            # bare data: nothing to update
         data, context = value
         lena.context.update_recursively(context, lena.context.str_to_dict(self._key, self._val))
         return (data, context)
+
+
+class _HSet(object):
+    """a hostile element: its _set_context updates the dictionary it is given IN PLACE (what SetContext did before
+    dd35ba0) and keeps it"""
+
+    def __init__(self, tag):
+        self._tag = tag
+
+    def _set_context(self, context):
+        context["hz%d" % self._tag] = 1
+        self._context = context
+
+    def __call__(self, value):
+        return value
+
+
+class _HRun(object):
+    """a hostile element: it keeps the dictionary it is given and updates it in place later, while the flow runs"""
+
+    def __init__(self, tag):
+        self._tag = tag
+
+    def _set_context(self, context):
+        self._context = context
+
+    def run(self, flow):
+        for val in flow:
+            if hasattr(self, "_context"):
+                self._context["hr%d" % self._tag] = 1
+            yield val
 
 
 _KEYERR = re.compile(r"nested (?:dict|key) (\S+) not found")
@@ -563,6 +642,10 @@ def build(node, objs):
         o = _FR()
     elif k == "mut":
         o = _Mutator(node["key"], node["val"])
+    elif k == "hset":
+        o = _HSet(slot)
+    elif k == "hrun":
+        o = _HRun(slot)
     elif k == "src":
         o = _Src()
     elif k == "seq":
@@ -625,9 +708,93 @@ def read_state(tree, objs):
     return recs
 
 
-def _run_tree(tree, flow_ctxs):
-    """construct the tree with the real classes, read the state of every element, run the flow (every value is
-    copied the moment it comes out), read the state of every element again"""
+def _held(node, o):
+    """the dictionary object an element holds as (a view of) static context, if any"""
+    k = node["k"]
+    if k == "store":
+        return o.context
+    if k in ("ucfs", "mkf", "hset", "hrun"):
+        return getattr(o, "_context", None)
+    if k in ("set", "seq"):
+        return getattr(o, "_static_context", None)
+    return None
+
+
+def _dict_ids(d, acc):
+    if isinstance(d, dict):
+        acc.add(id(d))
+        for v in d.values():
+            _dict_ids(v, acc)
+
+
+def id_classes(tree, objs):
+    """per node: the identities (renumbered) of the non-empty dictionaries reachable from what it holds"""
+    ren, out = {}, []
+    for node, o in zip(preorder(tree), objs):
+        acc = set()
+        h = _held(node, o)
+        if h:
+            _dict_ids(h, acc)
+        out.append(sorted(ren.setdefault(i, len(ren)) for i in acc))
+    return out
+
+
+def _scribble(d, depth=0):
+    """update a dictionary in place at every level (what a careless caller of _get_context() might do)"""
+    if isinstance(d, dict) and depth < 6:
+        for v in list(d.values()):
+            _scribble(v, depth + 1)
+        d["hzg"] = depth
+
+
+def _fresh_names(tree, ref):
+    """for every MakeFilename / Write / Cache whose prefix resolves: the name that a FRESH element of the same class
+    and arguments derives when it is handed the reference prefix fold — the real classes define what 'the name it
+    derives from a context' is, the reference fold defines the context"""
+    import lena.output, lena.flow
+    out = {}
+    for idx, node in enumerate(preorder(tree)):
+        exp = ref.exp.get(idx)
+        if exp is None or node["k"] not in ("mkf", "write", "cache"):
+            continue
+        objs = []
+        o = build(node, objs)
+        seen = exp.get("seen") if node["k"] == "mkf" else ref.seen_at.get(idx)
+        if seen:
+            o._set_context(copy.deepcopy(seen))
+        out[idx] = read_state(node, objs)[0].get("name")
+    return out
+
+
+def _neutral_run(tree, ref, make_flow):
+    """the no-leak reference run: the same tree WITHOUT its SetContext elements (every static context is empty),
+    in which each UpdateContextFromStatic and MakeFilename is handed, by hand, the reference prefix fold of its
+    position in the original tree; then the same flow"""
+    def strip(node):
+        if "c" in node:
+            return dict(node, c=[strip(c) for c in node["c"] if c["k"] != "set"])
+        return node
+    kept = [i for i, nd in enumerate(preorder(tree)) if nd["k"] != "set"]
+    t2 = strip(tree)
+    objs = []
+    top = build(t2, objs)
+    for i2, (nd, o) in enumerate(zip(preorder(t2), objs)):
+        if nd["k"] in ("ucfs", "mkf"):
+            seen = ref.exp[kept[i2]]["seen"]
+            if seen:
+                o._set_context(copy.deepcopy(seen))
+    gen = top() if tree["kind"] == "Source" else top.run(make_flow())
+    return [copy.deepcopy(v) for v in gen]
+
+
+def _out_pairs(res):
+    return [[v[0], v[1]] if isinstance(v, tuple) and len(v) == 2 and isinstance(v[1], dict) else [v, None] for v in res]
+
+
+def _run_tree(tree, flow_ctxs, redeliver=None, full=True):
+    """construct the tree with the real classes, read the state of every element, scribble on what every
+    _get_context() returns and read again, run the flow (every value is copied the moment it comes out), read the
+    state of every element again; finally call top._set_context(c) for the contexts of `redeliver`"""
     objs = []
     top = build(tree, objs)
     if _PRECACHE[0]:
@@ -641,21 +808,52 @@ def _run_tree(tree, flow_ctxs):
         objs = []
         top = build(tree, objs)
     recs = read_state(tree, objs)
-    out, after = None, None
+    res = {"nodes": recs, "out": None, "nodes_after": None}
+    if not full:
+        return res
+    res["ids"] = id_classes(tree, objs)
+    # what _get_context() returns is the caller's: updating it in place must change nothing
+    import lena.core
+    for o in objs:
+        if hasattr(o, "_get_context"):
+            try:
+                _scribble(o._get_context())
+            except lena.core.LenaKeyError:
+                pass
+    again = read_state(tree, objs)
+    res["nodes_scribbled"] = None if again == recs else again
     if flow_ctxs is not None:
+        def make_flow():
+            return [(i, copy.deepcopy(c)) if c is not None else i for i, c in enumerate(flow_ctxs)]
         try:
-            if tree["kind"] == "Source":
-                gen = top()
-            else:
-                gen = top.run([(i, copy.deepcopy(c)) for i, c in enumerate(flow_ctxs)])
-            res = []
+            gen = top() if tree["kind"] == "Source" else top.run(make_flow())
+            out = []
             for val in gen:
-                res.append(copy.deepcopy(val))
-            out = {"r": [[d, c] for d, c in res]}
+                out.append(copy.deepcopy(val))
+            res["out"] = {"r": _out_pairs(out)}
         except Exception as e:
-            out = {"e": exc_name(e), "msg": str(e)[:200]}
+            res["out"] = {"e": exc_name(e), "msg": str(e)[:200]}
         after = read_state(tree, objs)
-    return recs, out, after
+        # the state after the run is kept only if it differs from the state before it (memory)
+        res["nodes_after"] = None if after == recs else after
+        ref = Ref(tree)
+        if not any(nd["k"] in ("hset", "hrun") for nd in preorder(tree)) and consumers_defined(tree, ref.exp):
+            try:
+                res["neutral"] = {"r": _out_pairs(_neutral_run(tree, ref, make_flow))}
+            except Exception as e:
+                res["neutral"] = {"e": exc_name(e), "msg": str(e)[:200]}
+    if not any(nd["k"] in ("hset", "hrun") for nd in preorder(tree)):
+        res["fresh_names"] = {str(k): v for k, v in _fresh_names(tree, Ref(tree)).items()}
+    if redeliver:
+        raised = []
+        for c in redeliver:
+            try:
+                top._set_context(copy.deepcopy(c))
+                raised.append(None)
+            except lena.core.LenaKeyError as e:
+                raised.append(_keyerr(e)["e"])
+        res["redelivered"] = {"nodes": read_state(tree, objs), "raised": raised}
+    return res
 
 
 def run_impl(case):
@@ -665,11 +863,9 @@ def run_impl(case):
     os.chdir(tmp)
     _PRECACHE[0] = bool(case.get("precache"))
     try:
-        recs, out, after = _run_tree(case["tree"], case.get("flow"))
-        # the state after the run is kept only if it differs from the state before it (memory)
-        res = {"nodes": recs, "out": out, "nodes_after": None if after == recs else after}
+        res = _run_tree(case["tree"], case.get("flow"), case.get("redeliver"))
         if case.get("variants"):
-            res["variants"] = [_run_tree(v, None)[0] for v in case["variants"]]
+            res["variants"] = [_run_tree(v, None, full=False)["nodes"] for v in case["variants"]]
         return res
     finally:
         os.chdir(cwd)
